@@ -137,7 +137,8 @@ func richDoc(id int, g *docGen) string {
 			`<div hidden>` + g.words(5) + `</div><form><input type="text" value="v"><button>` + g.words(1) + `</button></form>` + story(2) + "</div>")
 	case 13: // OpenGraph under a custom prefix declared by the document
 		pfx := g.pick("zqog", "news", "o")
-		decl := g.pick(`<html prefix="`+pfx+`: http://ogp.me/ns#">`, `<html xmlns:`+pfx+`="http://ogp.me/ns#">`)
+		decl := g.pick(`<html prefix="`+pfx+`: http://ogp.me/ns#">`, `<html xmlns:`+pfx+`="http://ogp.me/ns#">`,
+			`<html lang="en" dir="ltr" xmlns="http://www.w3.org/1999/xhtml" xmlns:`+pfx+`="http://ogp.me/ns#" class="zqroot">`)
 		return "<!DOCTYPE html>" + decl + "<head><title>" + g.words(3) + `</title><meta property="` + pfx + `:title" content="Custom Og ` + g.words(2) +
 			`"><meta property="` + pfx + `:type" content="article"><meta property="` + pfx + `:url" content="https://example.com/c"><meta property="` + pfx +
 			`:image" content="https://example.com/c.png"></head><body><div>` + story(3) + "</div></body></html>"
